@@ -71,10 +71,10 @@ Proof.
   split; [vm_compute; reflexivity|]. split; [|split; vm_compute; reflexivity].
   split.
   - intros l Hl. assert (H : Forall (fun l => Pipeline.weight l = ∅) (procs ex_state)).
-    { vm_compute. repeat constructor. }
+    { apply (bool_decide_unpack _). vm_compute. exact I. }
     rewrite Forall_forall in H. exact (H l Hl).
   - intros ch Hch. assert (H : Forall (fun ch : chan Pipeline.val => cbuf ch = []) (chans ex_state)).
-    { vm_compute. repeat constructor. }
+    { apply (bool_decide_unpack _). vm_compute. exact I. }
     rewrite Forall_forall in H. exact (H ch Hch).
 Qed.
 
